@@ -9,6 +9,7 @@ R3 every consumed newline is counted: a path that matches LF and advances passes
 R4 errors are raised at the cursor (`give_up`) or at the mark (`give_up_at(reader.mark(), ..)`) only.
 R5 the mark survives refills: decided by C02-R2 (mark law), referenced here.
 """
+import re
 from . import absint as A
 from .absint import Engine, Auto, TOP
 from .common import norm
@@ -611,6 +612,100 @@ def run_r8(ctx, rule):
     if not found:
         rule.bad("remaining_file_content/advance", "no advance by an amount derived from the position of the last line feed found", f.loc(), kind="anchor-missing")
 
+# ---- R9 -------------------------------------------------------------------------------------------
+LRT = "flussab::text::LineReader"
+
+
+def run_r9(ctx, rule):
+    """the line bookkeeping itself, by affine path execution: `new` starts at line 1 with the line starting at the
+    reader's position, `line_at_offset(k)` adds exactly one line and puts its start at position + k, `give_up_at`
+    hands its position on unchanged, and nothing else writes the two fields"""
+    from .aff import PathExec, field, entry, Aff
+    facts = ctx.facts
+
+    def fn_of(name):
+        ids = [i for i in facts.fns if norm(i) == LR + name and facts.fns[i].crate not in ("ext", "promoted")]
+        if not ids:
+            rule.bad("%s/missing" % name, "anchor missing: LineReader::%s" % name, kind="anchor-missing")
+            return None
+        return facts.fn(ids[0])
+
+    def ret_paths(fn):
+        out = []
+        for p, cut in cfg(fn).paths():
+            if fn.term(p[-1])["k"] != "return":
+                continue
+            st = PathExec(facts, fn).run_path(p)
+            if not st.infeasible:
+                out.append((p, st))
+        return out
+
+    def is_position(v, root=None):
+        """pos_of_buf + pos_in_buf of one reader, nothing else"""
+        if not isinstance(v, Aff) or v.c != 0 or len(v.t) != 2 or set(v.t.values()) != {1}:
+            return False
+        names = sorted(k.split("@")[0] for k in v.t)
+        strip = lambda n: re.sub(r"^reader\.|\[[^\]]*\]$", "", n)
+        return sorted(strip(n) for n in names) == ["pos_in_buf", "pos_of_buf"]
+
+    a = facts.adts.get(LRT)
+    if a is None:
+        rule.bad("adt/missing", "anchor missing: LineReader", kind="anchor-missing")
+        return
+    fields = [f["name"] for f in a["variants"][0]["fields"]]
+    # the fields are public (tokens of the format crates may keep the books themselves); the one function that does
+    # so today is decided by C08-R8 (linear forms over the line feeds it passes) - any other store is reported
+    BOOKKEEPERS = {LR + "line_at_offset": "this rule", LR + "new": "this rule", "flussab_aiger::token::remaining_file_content": "C08-R8"}
+    for f, bi, si, name in util.field_stores(facts, LRT):
+        if name in ("line", "line_start"):
+            nid = norm(f.id)
+            base = nid.split("::{closure")[0]
+            rule.check(base in BOOKKEEPERS, "%s/stores-%s" % (nid, name), "LineReader.%s is stored by line_at_offset, or by a function whose arithmetic is decided separately (%s)" % (name, short(nid)), f.loc(bi))
+    for f, bi, si, name in util.mut_field_borrows(facts, LRT):
+        if name in ("line", "line_start"):
+            rule.bad("%s/borrows-%s" % (norm(f.id), name), "LineReader.%s is borrowed mutably in %s" % (name, short(f.id)), f.loc(bi))
+    fn = fn_of("line_at_offset")
+    if fn is not None:
+        n = 0
+        for p, st in ret_paths(fn):
+            n += 1
+            line = field(st, "line")
+            ls = field(st, "line_start")
+            rule.check(line == entry("line") + Aff(1), "line_at_offset/line", "line_at_offset: line' = line + 1  [computed %s]" % (line,), fn.loc(p[-1]))
+            rest = ls - Aff.sym("arg2") if isinstance(ls, Aff) else None
+            rule.check(rest is not None and is_position(rest), "line_at_offset/line_start", "line_at_offset(k): line_start' = reader.position() + k  [computed %s]" % (ls,), fn.loc(p[-1]))
+        if not n:
+            rule.bad("line_at_offset/no-path", "no returning path in line_at_offset", fn.loc(), kind="anchor-missing")
+    fn = fn_of("new")
+    if fn is not None and "line" in fields and "line_start" in fields:
+        n = 0
+        for p, st in ret_paths(fn):
+            for ev in st.events:
+                if ev[0] == "return" and isinstance(ev[2], tuple) and ev[2][0] == "agg" and norm(ev[2][1]) == LRT:
+                    n += 1
+                    ops = ev[2][3]
+                    line, ls = ops[fields.index("line")], ops[fields.index("line_start")]
+                    rule.check(line == Aff(1), "new/line", "LineReader::new starts at line 1  [computed %s]" % (line,), fn.loc(p[-1]))
+                    rule.check(is_position(ls), "new/line_start", "LineReader::new: line 1 starts at the reader's current position  [computed %s]" % (ls,), fn.loc(p[-1]))
+        if not n:
+            rule.bad("new/no-aggregate", "LineReader::new does not build the reader from explicit fields", fn.loc(), kind="unmodelled-idiom")
+    for name, want in (("give_up_at", "arg2"), ("give_up", "position")):
+        fn = fn_of(name)
+        if fn is None:
+            continue
+        n = 0
+        for p, st in ret_paths(fn):
+            for ev in st.events:
+                if ev[0] == "call" and ev[2][0] == LR + "give_up_at_cold":
+                    n += 1
+                    v = ev[2][1][1]
+                    if want == "arg2":
+                        rule.check(v == Aff.sym("arg2"), "give_up_at/position-unchanged", "give_up_at(p) locates the error at p itself  [computed %s]" % (v,), fn.loc(ev[1]))
+                    else:
+                        rule.check(is_position(v), "give_up/at-cursor", "give_up locates the error at the reader's position  [computed %s]" % (v,), fn.loc(ev[1]))
+        if not n:
+            rule.bad("%s/no-cold-call" % name, "%s does not reach give_up_at_cold" % name, fn.loc(), kind="anchor-missing")
+
 
 def run(ctx):
     r1 = ctx.rule("C08-R1", "mark() is read only after set_mark() for the current token on every path from every API root", floor=8)
@@ -627,6 +722,8 @@ def run(ctx):
     run_r7(ctx, r7)
     r6 = ctx.rule("C08-R6", "a token that leaves locating its error to the caller commits the error with the cursor still on the token", floor=3)
     run_r6(ctx, r6)
+    r9 = ctx.rule("C08-R9", "the line state itself: new starts at line 1 at the reader's position, line_at_offset(k) adds one line starting at position + k, give_up_at passes its position on, nothing else writes line / line_start", floor=9)
+    run_r9(ctx, r9)
     from .c02 import run_r2 as c02_r2
     r5 = ctx.rule("C08-R5", "the mark (and the position) keep designating the same stream offset across refills and realignment (shared with C02-R2)", floor=25)
     c02_r2(ctx, r5)
